@@ -186,6 +186,22 @@ ListOpts(what, rk) == [filt |-> CASE what \in {"dirs", "all_dirs"} -> "dirs" [] 
 \* the helper as a traversal ("listing helpers = entries + min/max depth + sort_by_name + filter")
 ListingSeq(fs, p, what, rk) == LET s == Expected(fs, p, ListOpts(what, rk)) IN [i \in 1..Len(s) |-> s[i].p]
 
+(* ---- pre_op (rustdoc of Entries::pre_op: "Set the pre-operation function to run over each directory before processing.
+        Runs the pre-operation before reading the filesystem.  Useful for changing permissions or ownership on the way in to
+        allow for recursion") ----
+   The pre-operation is called exactly once per directory that the traversal lists (the visits with `desc`), before anything
+   below that directory is touched (its own pre-operations, its yields) and - when the directory itself is yielded - before
+   that yield.  A combined log of events [t: "P" | "Y" | "E", p: reported path] is judged:  *)
+PreOpBag(fs, root, o) == LET D == {v \in Visits(fs, root, o) : v.desc}  L == {v.e.rp : v \in D} IN
+                         [x \in L |-> Cardinality({v \in D : v.e.rp = x})]
+StrictlyBelow(p, q) == IsPrefix(p, q) /\ p # q
+\* every P event precedes every event strictly below its directory and the yield of the directory itself (paths unique: no follow)
+PreOpFirst(ev) == \A i, j \in 1..Len(ev) : (ev[i].t = "P" /\ (StrictlyBelow(ev[i].p, ev[j].p) \/ (ev[j].t = "Y" /\ ev[j].p = ev[i].p))) => i < j
+\* a failing pre-operation: its error is the very next item, and nothing below the directory is visited
+PreOpFailStops(ev, bad) == \A i \in 1..Len(ev) : (ev[i].t = "P" /\ ev[i].p # <<>> /\ Last(ev[i].p) = bad) =>
+                              /\ i < Len(ev) /\ ev[i + 1].t = "E"
+                              /\ \A j \in 1..Len(ev) : ~StrictlyBelow(ev[i].p, ev[j].p)
+
 (* =====================================  Part 2: the machine  ===================================== *)
 (* cfg = [fs, root, o (normalised), nv (number of visits: bound for the step counter)];
    cur = the entry in hand (stage "self": decide what to emit; stage "enter": open its listing);
